@@ -32,7 +32,9 @@ IntervalUnits == {"second", "seconds", "SECONDS", "Minute", "minutes", "hour", "
 \* "~" stands for U+212A KELVIN SIGN (lower-cases to "k" under full Unicode case folding), "^" for U+017F LATIN
 \* SMALL LETTER LONG S (upper-cases to "S"): units are ASCII case-insensitive only, so these are junk
 JunkUnits == {"k", "kbs", "bytes", "sec", "s", "fortnight", "kb x", "b1", "pb", "~b", "~ib", "wee~", "wee~s", "^econd", "^econds", "m^",
-              "k b", "ki b", "m  b", "sec onds", "wee ks"}
+              "k b", "ki b", "m  b", "sec onds", "wee ks",
+              \* a valid unit with one letter too many at either end, or its plural ending doubled
+              "dayss", "weeksSS", "secondss", "yearsssssss", "minutess", "hourss", "monthsS", "sday", "sseconds", "kbb", "kkb", "bb", "kibb", "tbs"}
 \* long junk: "#n#p" stands for n letters "k" with one multi-byte letter at position p (0 = none).  Error paths that
 \* echo, truncate or classify the offending unit see every length around 8 .. 256 and every place for the wide letter.
 LongLens == {7, 8, 9, 15, 16, 17, 31, 32, 33, 34, 63, 64, 65, 127, 128, 129, 255, 256, 257}
